@@ -1,6 +1,7 @@
 package engines
 
 import (
+	"bytes"
 	"errors"
 	"fmt"
 	"io"
@@ -142,6 +143,9 @@ func FileOp(h fileLike, t []string) string {
 	case "writestring":
 		n, err := h.WriteString(string(corr.UnHex(t[2])))
 		return fmt.Sprintf("n=%d err:%s", n, FileErrClass(err))
+	case "readfrom":
+		n, err := io.Copy(h, plainReader{bytes.NewReader(corr.UnHex(t[2]))})
+		return fmt.Sprintf("n=%d err:%s", n, FileErrClass(err))
 	case "writeat":
 		n, err := h.WriteAt(corr.UnHex(t[2]), atoi64(t[3]))
 		return fmt.Sprintf("n=%d err:%s", n, FileErrClass(err))
@@ -254,7 +258,7 @@ func (f *Flat) Step(t []string) string {
 			f.AcrossEOF = true
 		}
 		return fmt.Sprintf("bytes=%s err:%s", corr.Hex(r), e)
-	case "write", "writeat", "writestring":
+	case "write", "writeat", "writestring", "readfrom":
 		b := corr.UnHex(t[2])
 		if t[0] == "writeat" && atoi64(t[3]) < 0 {
 			return "n=0 err:inval"
@@ -273,7 +277,7 @@ func (f *Flat) Step(t []string) string {
 			}
 		}
 		f.writeAt(off, b)
-		if t[0] == "write" || t[0] == "writestring" {
+		if t[0] == "write" || t[0] == "writestring" || t[0] == "readfrom" {
 			h.pos += int64(len(b))
 		}
 		return fmt.Sprintf("n=%d err:-", len(b))
@@ -426,6 +430,9 @@ func c02Random(r *corr.Rand, tier string) []corr.Case {
 			switch k := rr.Intn(100); {
 			case k < 22:
 				l = fmt.Sprintf("%s %d %s", corr.Pick(rr, []string{"write", "write", "writestring"}), h, corr.Hex(payload(rr, rr.Intn(6))))
+				if rr.Chance(15) { // io.Copy into the handle (never empty: an empty copy makes no call at all)
+					l = fmt.Sprintf("readfrom %d %s", h, corr.Hex(payload(rr, 1+rr.Intn(6))))
+				}
 			case k < 38:
 				l = fmt.Sprintf("writeat %d %s %d", h, corr.Hex(payload(rr, rr.Intn(6))), offNear(rr, L))
 			case k < 52:
